@@ -5,11 +5,11 @@ package main
 
 import (
 	"fmt"
-	"os"
 	"go/ast"
 	"go/constant"
 	"go/token"
 	"go/types"
+	"os"
 	"sort"
 	"strings"
 
@@ -635,6 +635,24 @@ func (fe *FE) execFrom(st *State, b *ssa.BasicBlock, from int) {
 			for _, r := range x.Results {
 				rs = append(rs, fe.valOf(st, r))
 			}
+			if n := len(st.frames); n > 0 {
+				// return from an inlined callee: bind the call's result and continue the caller after the call
+				fr := st.frames[n-1]
+				st.frames = st.frames[:n-1]
+				if fr.res != nil {
+					if len(rs) == 1 {
+						v := rs[0]
+						v.GoT = fr.res.Type()
+						st.vals[fr.res] = v
+					} else {
+						st.vals[fr.res] = Val{Kind: VTuple, Elems: rs, GoT: fr.res.Type()}
+					}
+				}
+				st.names = fr.names
+				st.path = append(st.path, "ret:"+fr.fn.Name())
+				fe.execFrom(st, fr.retTo, fr.retIdx+1)
+				return
+			}
 			fe.doReturn(st, rs, false)
 			return
 		case *ssa.Panic:
@@ -642,6 +660,7 @@ func (fe *FE) execFrom(st *State, b *ssa.BasicBlock, from int) {
 			return
 		default:
 			fe.curIns = [2]int{b.Index, i}
+			fe.curB, fe.curI = b, i
 			cont := fe.execInstr(st, ins, b, i)
 			// states forked inside the instruction (e.g. append in place / realloc)
 			forks := fe.pendingFork
@@ -765,6 +784,9 @@ func fpLit(f float64, sort string) string {
 // execInstr executes a non-terminator instruction. Returns false if the path ended.
 func (fe *FE) execInstr(st *State, ins ssa.Instruction, b *ssa.BasicBlock, idx int) bool {
 	site := fmt.Sprintf("b%d.%d", b.Index, idx)
+	if n := len(st.frames); n > 0 {
+		site = "in." + st.frames[n-1].fn.Name() + "." + site
+	}
 	switch x := ins.(type) {
 	case *ssa.DebugRef:
 		if id, ok := x.Expr.(*ast.Ident); ok {
